@@ -150,4 +150,12 @@ theorem C16_gen_child_closes_parent_end :
 /-! non-vacuity: the crash rule is exercised from states with messages in flight -/
 example : (reachable ⟨true, .execve false .runs⟩).any (fun s => !s.h2c.isEmpty && s.c == .started) = true := by decide +kernel
 
+/-- **end of file exists on the control socket**: the rule of the protocol model "a receive on the closed, empty
+socket is end of file" (on which `C16_container_dies_by_eof` rests, and which is the only way out for an init
+whose controller died before the parent-death signal was armed) needs a connection-oriented socket: the pair
+is created as AF_LOCAL, SOCK_SEQPACKET, close-on-exec (regenerated from pkg/unixsocket/socket_linux.go). On a
+datagram pair a blocked receive would never notice that the other end is gone. -/
+theorem C16_gen_socket_is_seqpacket :
+    Gen.C16.socketPairArgs = ["syscall.AF_LOCAL", "syscall.SOCK_SEQPACKET|syscall.SOCK_CLOEXEC", "0"] := by decide
+
 end GoSandbox.Props.C16
